@@ -115,6 +115,13 @@ def matchOrder (cfg : MCfg) (ic : InsCfg) (o : Ord) (b : MBar) (openAuction : Bo
                   (frozenCashOfOrder ic price o.qty true 0 + fee f price > cashPlusInit) then .rejected
               else .fill f price (closeToday f) (!o.isLimit && o.unfilled - f ≠ 0)
 
+/-- `DefaultBarMatcher.match` with its first guard (repaired, finding F43): at daily frequency, while the clock is still at 00:00 (before_trading,
+the opening auction and every handler that runs then), the day bar is not known yet — an order that is not matched as an auction order is not
+matched at all and rests until the bar.  (It used to be matched against the coming day bar: filled at that day's close before the open.) -/
+def matchOrderAt (beforeOpen : Bool) (cfg : MCfg) (ic : InsCfg) (o : Ord) (b : MBar) (openAuction : Bool) (turnover : Int)
+    (cashPlusInit : R) (fee : Int → R → R) (closeToday : Int → Int) : MOutcome :=
+  if beforeOpen && !openAuction then .rest else matchOrder cfg ic o b openAuction turnover cashPlusInit fee closeToday
+
 /-- signal mode: the deal price is the order's own limit price (limit order) or the last price -/
 def signalDeal (o : Ord) (last : R) : R := if o.isLimit then o.frozenPrice else last
 
